@@ -236,6 +236,15 @@ func c06Notary(w *core.WorkerCtx) {
 		if err != nil {
 			return "error", false
 		}
+		// the node memorises the answer in a goroutine of its own after it has replied. The client of this workload is one
+		// that waits until that has happened before it does anything else (on a loaded machine the goroutine can run
+		// after the next operation's invalidation and bring the old answer back: observed, DESIGN 5.4, not judged)
+		for try := 0; try < 400; try++ {
+			if _, err := rig.Cache.ReadBalance(a.Addr); err == nil {
+				break
+			}
+			time.Sleep(500 * time.Microsecond)
+		}
 		return ledger.MelStr(spice.Melange{Currency: sp.Currency, SupplementaryCurrency: sp.SupplementaryCurrency}), true
 	}
 	ledgerSays := func(a *ledger.Actor) (string, bool) {
